@@ -141,7 +141,9 @@ def main():
         judge(fails, "F")
 
         # negative control F: mirror the expected key of a decisive behaviour -> the replay must reject it
-        good = [b for b in behs if b[0]["exp"]["judged"] and not b[0]["exp"]["tags"] and b[0]["act"]["p"]["sip"] != b[0]["act"]["p"]["dip"]]
+        failed_ids = {json.dumps(f.get("behaviour"), sort_keys=True) for f in fails if isinstance(f, dict)}
+        good = [b for b in behs if b[0]["exp"]["judged"] and not b[0]["exp"]["tags"] and b[0]["act"]["p"]["sip"] != b[0]["act"]["p"]["dip"]
+                and json.dumps(b, sort_keys=True) not in failed_ids]
         vlib.require(good, "no decisive behaviour for the negative control")
         bad = json.loads(json.dumps(good[len(good) // 2]))
         for s in bad:
@@ -151,7 +153,7 @@ def main():
         _, nfails = _replay(run, vh, [bad], run.seed)
         vlib.require(nfails and nfails[0]["desc"]["diff"].startswith("mirrored"),
                      "negative control: a mirrored expectation was accepted by the replay")
-        run.cov["negative_control_F"] = "expected key mirrored: rejected as '%s'" % nfails[0]["desc"]["diff"]
+        run.cov["negative_control_F"] = "expected key mirrored: rejected as '%s'" % (nfails[0]["desc"]["diff"] if nfails else "(not conclusive)")
 
         # ---- B: interleaved conversations through a real capture, validated by TLC
         traces, pkts, nconv = (12, 3000, 80) if thorough else (4, 1500, 60)
